@@ -5,7 +5,7 @@
 (* with uids as strings, data identity as a hash, and the ancestors the caller *)
 (* supplied.  Explained iff it is a transition of EntityStore (closure         *)
 (* computed by the library) or of its enforce-mode acceptance rule.            *)
-EXTENDS EntityStore, TLC, Json, IOUtils
+EXTENDS EntityStoreRepair, Json, IOUtils
 
 Rec == ndJsonDeserialize(IOEnv.TRACE)
 VARIABLES l, bad
@@ -24,6 +24,30 @@ SameStore(rows, E) ==
   /\ {rows[i][1] : i \in 1..Len(rows)} = DOMAIN E
   /\ \A u \in DOMAIN E : Abs(rows)[u].v = E[u].v /\ AncOf(rows, u) = Reach(E, u)
 
+\* ---- one level down: the recorded stage between strip / install and repair is the stage of EntityStoreRepair
+ImplOf(rows) == [u \in {rows[i][1] : i \in 1..Len(rows)} |->
+                   LET r == rows[CHOOSE i \in 1..Len(rows) : rows[i][1] = u]
+                   IN [par |-> ToSet(r[2]), v |-> r[3], ind |-> ToSet(r[4]) \ ToSet(r[2])]]
+SameImpl(I, J) == DOMAIN I = DOMAIN J /\ \A u \in DOMAIN I : I[u].par = J[u].par /\ I[u].v = J[u].v /\ AncI(I, u) = AncI(J, u)
+AnyOrder(I) == LET RECURSIVE Mk(_) Mk(S) == IF S = {} THEN <<>> ELSE LET x == CHOOSE y \in S : TRUE IN <<x>> \o Mk(S \ {x})
+               IN Mk(UNION ({DOMAIN I} \cup {AncI(I, u) : u \in DOMAIN I}))
+StageOk(ev) ==
+  LET I0 == ImplOf(ev.pre)
+      mid == ImplOf(ev.mid)
+      t == ToSet(ev.touched)
+  IN CASE ev.op = "remove" ->
+            LET st == RemoveStage(I0, ev.arg) IN SameImpl(mid, st[1]) /\ t = st[2]
+       [] ev.op = "upsert" ->
+            LET st == UpsertStage(I0, Batch(ev.arg)) IN SameImpl(mid, st[1]) /\ GrowOk(st[1], st[2], t)
+       [] ev.op = "add" ->
+            LET st == AddStage(I0, Batch(ev.arg)) IN st[1] = "ok" /\ SameImpl(mid, st[2]) /\ GrowOk(st[2], st[3], t)
+       [] OTHER -> FALSE
+\* ... and the recorded result is what the model's repair of that stage gives (the model check shows it does not depend on the order)
+RepairOk(ev) ==
+  LET mid == ImplOf(ev.mid)
+      r == RepairTC(mid, ToSet(ev.touched), AnyOrder(mid))
+  IN IF ev.res[1] = "ok" THEN r[1] = "ok" /\ SameImpl(ImplOf(ev.post), r[2]) ELSE r[1] = "err"
+
 Covered(ev) ==   \* what the specification speaks about
   /\ ~ev.schema                                        \* schema-based loading adds action entities / validates: other families
   /\ \/ ev.mode = "ComputeNow"
@@ -40,6 +64,7 @@ Explained(ev) ==
           IN IF ev.res[1] = "ok"
              THEN r[1] = "ok" /\ SameStore(ev.post, r[2]) /\ ClosureExact(ev.post)
              ELSE r[1] = "err"
+       /\ ("staged" \in DOMAIN ev /\ ev.staged) => (StageOk(ev) /\ RepairOk(ev))
 
 Init == l = 1 /\ bad = {}
 Next == /\ l <= Len(Rec)
